@@ -370,6 +370,68 @@ def _late_show(it, case, complete):
                 ' appended'))
 
 
+def hash_seed_strategy():
+    """Hands in which players table part of their hands at an all-in
+    showdown (Omaha / stud, cash game, manual showdown): where the order of
+    the cards kept face down could depend on set iteration."""
+    return gen.cases(
+        tape_size=90, games=('PO', 'FO8', 'F7S', 'F7S8', 'FR', 'NT'),
+        custom=False, modes=('C',), profiles=(2, 5, 2), short_bias=True,
+        strict=False, rake=False, divmods=False, chips=('int',),
+        mask_strategy=st.sampled_from([2047 & ~(1 << 7),
+                                       2047 & ~(1 << 7) & ~(1 << 6), 0]))
+
+
+def _digests(cases, hash_seed):
+    import json
+    import os
+    import subprocess
+    import sys
+    from .. import VERIF, REPO
+    env = dict(os.environ, PYTHONHASHSEED=str(hash_seed),
+               PYTHONDONTWRITEBYTECODE='1', PKV_REPO=REPO)
+    env['PYTHONPATH'] = VERIF
+    r = subprocess.run([sys.executable, '-m', 'pkv.hashrun'], cwd=VERIF,
+                       input=json.dumps(cases), capture_output=True,
+                       text=True, env=env, timeout=600)
+    if r.returncode != 0:
+        from ..engine import HarnessError
+        raise HarnessError('hashrun worker failed: ' + r.stderr[-800:])
+    return json.loads(r.stdout.strip().splitlines()[-1])
+
+
+def extra(tier, seed, stats):
+    """"Given the same deck order the engine is deterministic" - also across
+    interpreter processes: the same cases are replayed under three different
+    PYTHONHASHSEED values and their logs / final hands compared."""
+    from ..fuzz import build_pool
+
+    class _M:
+        @staticmethod
+        def strategy(t):
+            return hash_seed_strategy()
+
+    n = 150 if tier == 'quick' else 1500
+    pool = build_pool(_M, tier, 7919 * (seed + 1), n)
+    for c in pool:
+        c['late_show'] = 0
+    seeds = (0, 1, 2) if tier == 'quick' else (0, 1, 2, 3, 4)
+    res = [_digests(pool, h) for h in seeds]
+    viols = []
+    partial = 0
+    for i, case in enumerate(pool):
+        ds = {r[i] for r in res}
+        if len(ds) > 1 and not viols:
+            viols.append((V(ID, 'depends_on_hash_seed', '',
+                            f'the same case gives different logs / final'
+                            f' hands under PYTHONHASHSEED {seeds}:'
+                            f' digests {[r[i] for r in res]}'),
+                          dict(case, kind='hashseed', hash_seeds=list(seeds))))
+    info = dict(evaluations=len(pool) * len(seeds), distinct_nontrivial=0,
+                hash_seeds=list(seeds), hash_seed_cases=len(pool))
+    return viols, info
+
+
 def budget(tier):
     if tier == 'quick':
         return dict(examples=2000, wall=110)
@@ -381,6 +443,14 @@ def strategy(tier):
 
 
 def check(case, stats):
+    if case.get('kind') == 'hashseed':
+        seeds = case.get('hash_seeds') or [0, 1, 2]
+        one = {k: v for k, v in case.items() if k not in ('kind',)}
+        ds = [_digests([one], h)[0] for h in seeds]
+        if len(set(ds)) > 1:
+            return [V(ID, 'depends_on_hash_seed', '',
+                      f'digests {ds} under PYTHONHASHSEED {seeds}')]
+        return []
     cfg = case['config']
     tape = case['tape']
     out = []
